@@ -183,3 +183,88 @@ def check_groups_exhaustive(dmax=4):
               "overlapping / out-of-range lists raise ValueError" % dmax, PROVED if not bad and none_ok else REFUTED, "enumeration", "B",
               {"evaluated": total, "failing": bad[:5], "replayed": True}, fn=fn)]
     return obs
+
+
+def selection_frame():
+    """FX frame of the selection observers of every sparse estimator: get_selection / _n_selected_features / _group_lasso_penalty
+    read only constructor options and the learnt parameters (what _init_params creates) and write NOTHING on the estimator --
+    a mask cached on the object survives weight restoration / set_params and makes the reported selection depend on history."""
+    import inspect
+    from gemclus.sparse import SparseLinearModel, SparseMLPModel, SparseLinearMMD, SparseLinearMI, SparseMLPMMD
+    SELF = ("var", "self")
+    obs = []
+    for cls in (SparseLinearModel, SparseLinearMMD, SparseLinearMI, SparseMLPModel, SparseMLPMMD):
+        hp = set(inspect.signature(cls.__init__).parameters) - {"self"}
+        try:
+            ini = fx.Interp(cls, inline_filter=lambda o, m: True, max_depth=6).run_method("_init_params")
+        except fx.FxUnsupported as e:
+            obs.append(Ob(f"{cls.__name__}: selection observers analysable", UNDECIDED, "fx", "P", {"why": str(e)}, fn=f"{cls.__name__}.get_selection"))
+            continue
+        learnt = {e[2] for st in ini for e in st.events if e[0] == "store" and e[1] == SELF} | {"groups_"}
+        for meth in ("get_selection", "_n_selected_features", "_group_lasso_penalty"):
+            fn = f"{cls.__module__}.{cls.__name__}.{meth}"
+            try:
+                sts = fx.Interp(cls, inline_filter=lambda o, m: m != "fit", max_depth=6).run_method(meth)
+            except fx.FxUnsupported as e:
+                obs.append(Ob(f"{cls.__name__}.{meth}: frame analysable", UNDECIDED, "fx", "P", {"why": str(e)}, fn=fn))
+                continue
+            writes, reads, hidden = set(), set(), set()
+            for st in sts:
+                for e in st.events:
+                    if e[0] == "store" and e[1] == SELF:
+                        writes.add(e[2])
+                    if e[0] == "mutate" and isinstance(e[1], tuple) and e[1][:2] == ("attr", SELF):
+                        writes.add(e[1][2])
+                    if e[0] == "read" and e[1] == SELF and not callable(getattr(cls, e[2], None)):
+                        reads.add(e[2])
+                    if e[0] == "call" and e[2] in ("getattr", "hasattr", "setattr") and len(e[3]) >= 2 and e[3][0] == SELF:
+                        hidden.add(fx.show(e[3][1])[:40])
+            state = sorted((reads - hp - learnt) | hidden)
+            obs.append(Ob(f"{cls.__name__}.{meth}: reads only constructor options and learnt parameters, writes nothing on the estimator (no cached selection)",
+                          PROVED if not state and not writes else REFUTED, "fx-dataflow", "P",
+                          {"other state read": state, "attributes written": sorted(writes)}, fn=fn))
+    return obs
+
+
+def native_selection_histories(seed=0):
+    """B: after every way the weights can change -- fit, path() with and without restoration of the best weights, a second fit,
+    weights set back by hand -- get_selection() is exactly the set of non-zero (skip-)weight rows of the CURRENT weights,
+    _n_selected_features() its size, and perturbing any other feature leaves predict_proba unchanged."""
+    import warnings
+    from gemclus.sparse import SparseLinearMMD, SparseMLPMMD
+    rs = np.random.RandomState(seed + 23)
+    X = rs.normal(size=(40, 5)) + 2.5 * rs.randint(0, 3, size=(40, 1)) * np.array([1.0, 1.0, 0.0, 0.0, 0.0])
+    obs = []
+
+    def state_ok(m, tag, why):
+        W = m.W_skip_ if hasattr(m, "W_skip_") else m.W_
+        want = np.flatnonzero(np.linalg.norm(W, axis=1) != 0)
+        got = np.sort(np.asarray(m.get_selection()).ravel())
+        if not np.array_equal(got, want) or m._n_selected_features() != len(want):
+            why.append(f"{tag}: get_selection() = {got.tolist()}, n = {m._n_selected_features()}, non-zero rows = {want.tolist()}")
+        P0 = m.predict_proba(X)
+        for f in range(X.shape[1]):
+            if f not in got:
+                Z = X.copy()
+                Z[:, f] += 7.5
+                if not np.allclose(m.predict_proba(Z), P0, rtol=0, atol=1e-12):
+                    why.append(f"{tag}: feature {f} is not reported as selected but moves predict_proba")
+    for name, mk in (("SparseLinearMMD", lambda: SparseLinearMMD(n_clusters=3, max_iter=15, alpha=0.5, learning_rate=0.05, random_state=seed)),
+                     ("SparseMLPMMD", lambda: SparseMLPMMD(n_clusters=3, max_iter=15, alpha=0.5, learning_rate=0.05, n_hidden_dim=4, random_state=seed))):
+        why = []
+        try:
+            with warnings.catch_warnings(), np.errstate(all="ignore"):
+                warnings.simplefilter("ignore")
+                m = mk().fit(X)
+                state_ok(m, "after fit", why)
+                for restore in (True, False):
+                    m = mk()
+                    m.path(X, alpha_multiplier=1.6, min_features=1, keep_threshold=0.9, restore_best_weights=restore, max_patience=2)
+                    state_ok(m, f"after path(restore_best_weights={restore})", why)
+                    m.fit(X)
+                    state_ok(m, "after a fit that follows the path", why)
+        except Exception as e:
+            why.append("raised " + repr(e)[:200])
+        obs.append(Ob(f"{name}: get_selection() == non-zero rows of the current weights, other features inert -- after fit, path (with / without restoration), refit",
+                      PROVED if not why else REFUTED, "native", "B", {"failed": why[:4], "replayed": True}, fn=f"gemclus.sparse.{name}.get_selection"))
+    return obs
